@@ -559,6 +559,14 @@ def norm(node):
     return s if len(s) <= 160 else s[:157] + '...'
 
 
+def full(node):
+    """Full (untruncated) normalised source of a node, for containment tests."""
+    try:
+        return ' '.join(ast.unparse(node).split())
+    except Exception:
+        return ast.dump(node)
+
+
 def stmt_of(node):
     """Enclosing statement of an expression node."""
     n = node
